@@ -65,7 +65,7 @@ THEOREMS['C02'] = ['FB.C02_rolledBack_frame', 'FB.C02_rolledBack_files', 'FB.C02
                    'FB.Rollback.Undoable.start', 'FB.Rollback.Undoable.mkdir', 'FB.Rollback.Undoable.moveAside', 'FB.Rollback.Undoable.overwrite',
                    'FB.Rollback.Undoable.writeNew', 'FB.Rollback.Undoable.dropOutput', 'FB.Rollback.Undoable.rmEmpty',
                    'FB.Rollback.makeDirs_undoable', 'FB.Rollback.makeRoom_undoable', 'FB.Rollback.Undoable.eraseDir', 'FB.Rollback.undoable_rollback', 'FB.Rollback.steps_undoable', 'FB.Rollback.steps_rollback']
-THEOREMS['C14'] = ['FB.C14_fault_surfaces', 'FB.MakeRoomF.makeRoomF_moved', 'FB.MakeRoomF.makeRoomF_keeps_virtual', 'FB.MakeRoomF.makeRoomF_no_file_lost', 'FB.MakeRoomF.makeRoomF_raw', 'FB.MakeRoomF.makeRoomF_none', 'FB.Rollback.makeRoomF_undoable', 'FB.Rollback.C14_makeRoom_fault_rollback', 'FB.Rollback.C14_makeRoom_fault_rollback_first_step', 'FB.MakeDirsF.makeDirsF_error', 'FB.MakeDirsF.loop_none', 'FB.Rollback.makeDirsF_undoable', 'FB.Rollback.C14_makeDirs_fault_rollback', 'FB.Rollback.C14_makeDirs_fault_rollback_first_step', 'FB.Rollback.makeRoomF_saved_below', 'FB.Rollback.prepare_undoable', 'FB.Rollback.C14_prepare_fault_rollback', 'FB.C02_spec_build_raises', 'FB.C02_rolledBack_files', 'FB.MakeDirs.makeDirs_error',
+THEOREMS['C14'] = ['FB.C14_fault_surfaces', 'FB.MakeRoomF.makeRoomF_moved', 'FB.MakeRoomF.makeRoomF_keeps_virtual', 'FB.MakeRoomF.makeRoomF_no_file_lost', 'FB.MakeRoomF.makeRoomF_raw', 'FB.MakeRoomF.makeRoomF_none', 'FB.Rollback.makeRoomF_undoable', 'FB.Rollback.C14_makeRoom_fault_rollback', 'FB.Rollback.C14_makeRoom_fault_rollback_first_step', 'FB.MakeDirsF.makeDirsF_error', 'FB.MakeDirsF.loop_none', 'FB.Rollback.makeDirsF_undoable', 'FB.Rollback.C14_makeDirs_fault_rollback', 'FB.Rollback.C14_makeDirs_fault_rollback_first_step', 'FB.Rollback.makeRoomF_saved_below', 'FB.Rollback.prepare_undoable', 'FB.Rollback.C14_prepare_fault_rollback', 'FB.Rollback.C14_prepare_fault_rollback_first_step', 'FB.Rollback.makeRoomF_wf', 'FB.Rollback.prepare_failure_leaves_nothing', 'FB.C02_spec_build_raises', 'FB.C02_rolledBack_files', 'FB.MakeDirs.makeDirs_error',
                    'FB.Rollback.rollBack_restores_files']
 THEOREMS['C03'] = ['FB.C03_impl_build', 'FB.C03_impl_buildGo', 'FB.C03_impl_run_frame', 'FB.replayOp_frame', 'FB.C03_run_frame',
                    'FB.C12_preClean_frame', 'FB.C02_rolledBack_files', 'FB.C12_impl_clean_is_preClean',
